@@ -143,7 +143,7 @@ def _foreign_docs(tier):
     for n in names:
         mod = importlib.import_module(f"checks.{n}")
         if n == "c01" and tier == "quick":
-            gens = itertools.chain(mod._matrix(), mod._pairs(), mod._default_pairs())
+            gens = itertools.chain(mod._matrix(), mod._pairs(), mod._default_pairs(), mod._graphs(tier))
         else:
             gens = mod.cases("quick")
         for c in gens:
@@ -187,7 +187,7 @@ def _foreign_docs(tier):
             if n == "c17" and p.get("mode") in ("nullable", "enum-null", "wrapper"):
                 pass
             for d, o in docs:
-                k = json.dumps([d, o], sort_keys=True, default=str)
+                k = json.dumps([d, o], sort_keys=False, default=str)      # map order is part of a document's identity
                 if k not in seen:
                     seen.add(k)
                     yield n, d, o
